@@ -87,7 +87,14 @@ func (p *parser) advance() *token.Token {
 // returns the current token without advancing
 func (p *parser) peek() *token.Token {
 	if p.cur >= len(p.tokens) {
-		return &token.Token{Type: token.EOF}
+		// the tokens do not end with an EOF (the body of a generic function)
+		// so return one that sits at the end of the last token for errors to point at
+		eof := &token.Token{Type: token.EOF}
+		if len(p.tokens) > 0 {
+			last := &p.tokens[len(p.tokens)-1]
+			eof.Range = token.Range{Start: last.Range.End, End: last.Range.End}
+		}
+		return eof
 	}
 	return &p.tokens[p.cur]
 }
